@@ -419,7 +419,7 @@ def harnesses(tier):
                   functions=["TreeList.split_distribution", "SplitDistribution.count_splits_on_tree/calc_freqs/__getitem__"], cost=2.0, **common),
           Harness("c05_consensus", "C05", c05_consensus, sh("consensus", True), bounds=dict(B, threshold="symbolic choice from %r" % THRESHOLDS),
                   functions=["TreeArray.consensus_tree", "SplitDistribution.consensus_tree", "Tree.from_split_bitmasks", "TreeArray.add_trees"], cost=6.0, path_timeout=15.0, **common),
-          Harness("c05_collapse", "C05", c05_collapse, [dict(x, target=tg_) for x in sh("collapse", True, ks_=(1, 2) if q else (1, 2, 3)) for tg_ in range(npool)],
+          Harness("c05_collapse", "C05", c05_collapse, [dict(x, target=tg_) for x in (sh("collapse", True, ks_=(1, 2)) + ([] if q else [dict(k=3, mode="collapse", npool=npool, t0=t0) for t0 in range(npool)])) for tg_ in range(npool)],
                   bounds=dict(B, target="symbolic choice of target tree with symbolic int edge lengths", threshold="as c05_consensus"),
                   functions=["SplitDistribution.collapse_edges_with_less_than_minimum_support", "Edge.collapse"], cost=2.0, path_timeout=15.0, **common)]
     hs.append(Harness("c05_support", "C05", c05_support, [dict(k=k, mode="support", use_w=False, npool=npool, target=tg_, t0=t0) for k in ((1, 2) if q else (1, 2, 3)) for tg_ in range(npool) for t0 in range(npool)],
